@@ -41,7 +41,7 @@ void h_vec_ops(void)
 		else if (op == 1 && rn < REFMAX) { struct frgv_tracked t; mk_obj(&t, val); vec_push_back_1(&v, &t); frgv_tracked_dtor(&t); ref[rn++] = val; }
 		else if (op == 2 && rn > 0) { struct frgv_tracked out; memset(&out, 0, sizeof(out)); vec_pop(&out, &v);
 			__CPROVER_assert(out.live == 1 && out.v == ref[rn - 1], "pop returns the last element"); frgv_tracked_dtor(&out); rn--; }
-		else if (op == 3 || op == 5) { size_t ns = (op == 3) ? rn + 2 : rn / 2; vec_resize_0(&v, ns);     /* grow by 2 / shrink to half */
+		else if ((op == 3 && rn + 2 <= REFMAX) || op == 5) { size_t ns = (op == 3) ? rn + 2 : rn / 2; vec_resize_0(&v, ns);     /* grow by 2 / shrink to half */
 			for (size_t q = rn; q < ns; q++) ref[q] = 0; rn = ns; }
 		else if (op == 4) { vec_clear(&v); rn = 0; }
 		else if (op == 6 && 2 * v._capacity + 1 <= REFMAX) { size_t ns = 2 * v._capacity + 1; vec_resize_0(&v, ns);          /* grow past twice the capacity in one step */
@@ -76,7 +76,7 @@ void h_svec_ops(void)
 		if (op == 0 && rn < REFMAX) { struct frgv_tracked t; mk_obj(&t, val); svec_push_back_0(&v, &t); frgv_tracked_dtor(&t); ref[rn++] = val; }
 		else if (op == 1 && rn < REFMAX) { svec_emplace_back__int_R(&v, &val); ref[rn++] = val; }
 		else if (op == 2 && rn > 0) { svec_pop_back(&v); rn--; }
-		else if (op == 3 || op == 4) { size_t ns = (op == 3) ? rn + 3 : rn / 2; svec_resize(&v, ns); for (size_t q = rn; q < ns; q++) ref[q] = 0; rn = ns; }
+		else if ((op == 3 && rn + 3 <= REFMAX) || op == 4) { size_t ns = (op == 3) ? rn + 3 : rn / 2; svec_resize(&v, ns); for (size_t q = rn; q < ns; q++) ref[q] = 0; rn = ns; }
 		else if (op == 5 && 2 * v._capacity + 1 <= REFMAX) { size_t ns = 2 * v._capacity + 1; svec_resize(&v, ns);          /* grow past twice the capacity in one step */
 			for (size_t q = rn; q < ns; q++) ref[q] = 0; rn = ns; }
 		if (rn > 0) { size_t ix = nondet_size_t(); __CPROVER_assume(ix < rn);
